@@ -126,6 +126,7 @@ structure PyBlock where
   isCallsubBlock : Bool              -- block.is_callsub_block
   subReturnPoint : Option Nat        -- block.sub_return_point
   calleeRetsubBlocks : Nat           -- len(block.called_subroutine.retsub_blocks)
+  isLeaf : Bool := false             -- leaf_block_global(block)
 deriving Inhabited
 
 /-- what the path search of detectors/utils.py reads of the function's graph (blocks are named by their keys) -/
@@ -141,6 +142,11 @@ structure PyGraph where
 /-- a dictionary with block keys that is only written and looked up: `d[k] = v` is function update -/
 def dictSet {V : Type} (d : Nat → Option V) (k : Nat) (v : V) : Nat → Option V :=
   fun k' => if k' = k then some v else d k'
+
+/-- a dictionary with block keys whose lookups are totalised (`d[k]` of a missing key is a KeyError in Python, modelled by
+    `mkGraph`): `d[k] = v` is function update -/
+def dmapSet {V : Type} (d : Nat → V) (k : Nat) (v : V) : Nat → V :=
+  fun k' => if k' = k then v else d k'
 
 end PyView
 end Tealer
